@@ -469,26 +469,38 @@ Proof.
   induction l; simpl; auto. destruct (p a); rewrite IHl; reflexivity.
 Qed.
 
-Lemma ar_api_agree : forall genv t fvars,
-  ar_api_vars_ok fvars = true -> ar_agree (Some fvars) (ar_mk_env genv (ar_api_bindings t ++ fvars)).
+Lemma ar_nav_bindings_none : forall navv to_svc t x,
+  ar_mem x (ar_nav_names to_svc) = false -> ar_assoc x (ar_nav_bindings navv to_svc t) = None.
 Proof.
-  intros genv t fvars V x v H. unfold ar_lookup. simpl ar_locals.
-  assert (N : ar_is_target_var x || ar_str_eqb x ar_s_obj = false).
+  intros navv to_svc t x. unfold ar_nav_bindings, ar_mem.
+  induction (ar_nav_names to_svc) as [|n r IH]; simpl; intros H; auto.
+  apply orb_false_iff in H. destruct H as [H1 H2]. rewrite H1. auto.
+Qed.
+
+Lemma ar_api_agree : forall genv navv to_svc t fvars,
+  ar_api_vars_ok to_svc fvars = true -> ar_agree (Some fvars) (ar_mk_env genv (ar_api_locals navv to_svc t fvars)).
+Proof.
+  intros genv navv to_svc t fvars V x v H. unfold ar_lookup, ar_api_locals. simpl ar_locals.
+  assert (N : ar_api_var_ok to_svc x = true).
   { unfold ar_api_vars_ok in V. rewrite forallb_forall in V.
     induction fvars as [|[k w] r IH]; simpl in H; try discriminate.
     destruct (ar_str_eqb x k) eqn:E.
-    - apply ar_str_eqb_eq in E. subst k. specialize (V (x, w) (or_introl eq_refl)). simpl in V. apply negb_true_iff in V. auto.
+    - apply ar_str_eqb_eq in E. subst k. apply (V (x, w) (or_introl eq_refl)).
     - apply IH; auto. intros y Iy. apply V. right. auto. }
-  apply orb_false_iff in N. destruct N as [N1 N2]. unfold ar_is_target_var in N1. apply orb_false_iff in N1. destruct N1 as [N0 N1].
+  unfold ar_api_var_ok in N. apply negb_true_iff in N.
+  apply orb_false_iff in N. destruct N as [N N3]. apply orb_false_iff in N. destruct N as [N1 N2].
+  unfold ar_is_target_var in N1. apply orb_false_iff in N1. destruct N1 as [N0 N1].
   rewrite ar_assoc_app_none.
-  - rewrite H. reflexivity.
+  - rewrite ar_assoc_app_none by (apply ar_nav_bindings_none; auto). rewrite H. reflexivity.
   - destruct t; simpl; rewrite ?N0, ?N1, ?N2; reflexivity.
 Qed.
 
-Lemma ar_api_named_host : forall genv t fvars, ar_named (ar_mk_env genv (ar_api_bindings t ++ fvars)) ar_s_host (ar_t_host t).
-Proof. intros. unfold ar_named, ar_lookup. destruct t; simpl; eexists; split; reflexivity. Qed.
-Lemma ar_api_named_service : forall genv h s fvars, ar_named (ar_mk_env genv (ar_api_bindings (ATSvc h s) ++ fvars)) ar_s_service (ar_sv_name s).
-Proof. intros. unfold ar_named, ar_lookup. simpl; eexists; split; reflexivity. Qed.
+Lemma ar_api_named_host : forall genv navv to_svc t fvars,
+  ar_named (ar_mk_env genv (ar_api_locals navv to_svc t fvars)) ar_s_host (ar_t_host t).
+Proof. intros. unfold ar_named, ar_lookup, ar_api_locals. destruct t; simpl; eexists; split; reflexivity. Qed.
+Lemma ar_api_named_service : forall genv navv to_svc h s fvars,
+  ar_named (ar_mk_env genv (ar_api_locals navv to_svc (ATSvc h s) fvars)) ar_s_service (ar_sv_name s).
+Proof. intros. unfold ar_named, ar_lookup, ar_api_locals. simpl; eexists; split; reflexivity. Qed.
 
 Lemma ar_find_full_in : forall inv b full k, In k (ar_find_full inv b full) ->
   exists t, In t (ar_targets inv b) /\ ar_t_fullname t = full /\ k = ar_t_key t.
@@ -519,21 +531,21 @@ Proof.
   apply andb_true_iff in N. destruct N as [N1 N2]. rewrite forallb_forall in N2. auto.
 Qed.
 
-Theorem ar_api_fast_eq : forall genv inv to_svc fvars f,
+Theorem ar_api_fast_eq : forall genv navv inv to_svc fvars f,
   ar_api_premises inv = true ->
-  ar_same_keys (ar_api_fast genv inv to_svc fvars f) (ar_api_plain genv inv to_svc fvars f) = true.
+  ar_same_keys (ar_api_fast genv navv inv to_svc fvars f) (ar_api_plain genv navv inv to_svc fvars f) = true.
 Proof.
-  intros genv inv to_svc fvars f NB. unfold ar_api_premises in NB.
+  intros genv navv inv to_svc fvars f NB. unfold ar_api_premises in NB.
   assert (R : forall r, ar_same_keys r r = true).
   { destruct r; simpl; auto. rewrite andb_diag. apply ar_ksubset_spec. auto. }
-  unfold ar_api_fast. destruct (ar_api_vars_ok fvars) eqn:V; [simpl|apply R]. destruct to_svc.
+  unfold ar_api_fast. destruct (ar_api_vars_ok to_svc fvars) eqn:V; [simpl|apply R]. destruct to_svc.
   - destruct (ar_target_services (Some fvars) f) eqn:E; [|apply R].
     unfold ar_api_plain.
     erewrite map_ext_in.
     2:{ intros t It. destruct (ar_svc_targets_nobang inv t NB It) as [h [s [Et _]]]. subst t.
         rewrite (ar_target_services_sound_complete (Some fvars) _ f l (ar_h_name h) (ar_sv_name s)
-                   (ar_api_agree genv (ATSvc h s) fvars V) (ar_api_named_host genv (ATSvc h s) fvars)
-                   (ar_api_named_service genv h s fvars) E).
+                   (ar_api_agree genv navv true (ATSvc h s) fvars V) (ar_api_named_host genv navv true (ATSvc h s) fvars)
+                   (ar_api_named_service genv navv true h s fvars) E).
         simpl ar_truthy.
         instantiate (1 := fun t => if ar_mem2 (ar_t_host t) (ar_t_svc t) l then Some [ar_t_key t] else Some []).
         simpl. reflexivity. }
@@ -558,7 +570,7 @@ Proof.
     erewrite map_ext_in.
     2:{ intros t It.
         rewrite (ar_target_hosts_sound_complete (Some fvars) _ f l (ar_t_host t)
-                   (ar_api_agree genv t fvars V) (ar_api_named_host genv t fvars) E).
+                   (ar_api_agree genv navv false t fvars V) (ar_api_named_host genv navv false t fvars) E).
         simpl ar_truthy.
         instantiate (1 := fun t => if ar_mem (ar_t_host t) l then Some [ar_t_key t] else Some []).
         simpl. reflexivity. }
